@@ -474,6 +474,20 @@ impl Gen {
         let ci = self.rng.usize_below(t.cols.len());
         let c = &t.cols[ci];
         let r = self.rng.below(100);
+        if depth < 2 && r < 4 {
+            // the value of a logical sub-condition (1 or 0) under a comparison;
+            // a literal operand that does not decide it, and a column whose
+            // value is neither 0 nor 1, are the interesting case
+            let col = Cond::Truthy(c.name.clone());
+            let inner = match self.rng.below(4) {
+                0 => Cond::And(Box::new(Cond::Const(true)), Box::new(col)),
+                1 => Cond::Or(Box::new(Cond::Const(false)), Box::new(col)),
+                2 => Cond::And(Box::new(col), Box::new(Cond::Const(true))),
+                _ => Cond::Not(Box::new(self.gen_cond(t, depth + 1))),
+            };
+            let op = *self.rng.pick(&[CmpOp::Eq, CmpOp::Ne, CmpOp::Ge, CmpOp::Lt]);
+            return Cond::CmpBool(Box::new(inner), op, Val::Int(*self.rng.pick(&[1, 0, 1, 2])));
+        }
         if depth < 2 && r < 25 {
             let a = self.gen_cond(t, depth + 1);
             let b = self.gen_cond(t, depth + 1);
@@ -740,6 +754,15 @@ impl Gen {
             steps.push(WStep::Write(n));
         }
         if self.explicit_stream_flush || self.rng.chance(400) {
+            if self.rng.chance(200) {
+                // a position query / seek as the last call before the flush
+                let total: u32 = {
+                    let mut c = Vec::new();
+                    apply_wsteps(1, &steps, &mut c);
+                    c.len() as u32
+                };
+                steps.push(WStep::Seek(if self.rng.chance(500) { total } else { self.rng.below(total as u64 + 1) as u32 }));
+            }
             steps.push(WStep::Flush);
         }
         steps
@@ -1087,6 +1110,31 @@ impl Gen {
         }
     }
 
+    /// Two tables whose "table.column" spellings coincide although the
+    /// (table, column) pairs differ: Lib + Core.Id and Lib.Core + Id.
+    fn macro_dotted_names(&mut self) {
+        self.table_seq += 1;
+        let a = format!("Lib{}", self.table_seq);
+        let (b, c) = (self.rng.pick(&["Core", "X", "a1"]).to_string(), self.rng.pick(&["Id", "Key", "k"]).to_string());
+        let mk = |name: &str, key: bool, cat: bool| {
+            let mut col = ColSpec::new(name, CType::Str(20));
+            col.key = key;
+            col.nullable = !key;
+            if cat {
+                col.category = Some("Identifier".into());
+            }
+            col
+        };
+        let t1 = (a.clone(), vec![mk("K", true, false), mk(&format!("{}.{}", b, c), false, true)]);
+        let t2 = (format!("{}.{}", a, b), vec![mk("K", true, false), mk(&c, false, false)]);
+        for (name, cols) in [t1, t2] {
+            if self.model.expect_create_table(&name, &cols) == Expect::Ok {
+                self.model.apply_create_table(&name, &cols);
+                self.push(Op::CreateTable { name, cols });
+            }
+        }
+    }
+
     // ------------------------------------------------------------ read-only sessions
 
     fn read_only_session(&mut self) {
@@ -1256,6 +1304,10 @@ impl Gen {
                 self.push(op);
                 return;
             }
+        }
+        if self.profile == Profile::Schema && self.rng.chance(12) {
+            self.macro_dotted_names();
+            return;
         }
         if matches!(self.profile, Profile::Clean | Profile::Benign | Profile::Crash | Profile::Reject) && self.rng.chance(35) {
             self.macro_quiet_bump();
@@ -1527,6 +1579,7 @@ pub fn gen_foreign_spec(rng: &mut Prng, big: bool) -> ForeignSpec {
         } else {
             Vec::new()
         },
+        saturate: None,
     }
 }
 
@@ -1577,6 +1630,10 @@ pub fn generate(property: &str, profile: Profile, seed: u64, run: u64) -> Trace 
         let spec = gen_foreign_spec(&mut rng, big_script);
         cp_set = vec![if spec.codepage == 0 { 65001 } else { spec.codepage }];
         alphabet = if spec.codepage == 0 { Vec::new() } else { crate::cp::common_chars(&cp_set) };
+        // (UTF-8 represents whatever the image's own page does)
+        if !cp_set.contains(&65001) {
+            cp_set.push(65001);
+        }
         let m = spec.model();
         (Init::Foreign(Box::new(spec)), m)
     } else {
